@@ -41,11 +41,13 @@ func init() {
 		cr.absorb(jobs, res)
 		all := map[string]string{"atrest": "1", "sign": "1", "reinit": "1"}
 		cj := []Job{ceremonyJob("c04n2", 2, 2, all, "outputs, deals, at rest"),
-			ceremonyJob("c04nonce", 2, 2, map[string]string{"nonces": "1"}, "a second round after a restart: signing nonces")}
-		nat := []map[string]int{{}, {}}
+			ceremonyJob("c04nonce", 2, 2, map[string]string{"nonces": "1"}, "a second round after a restart: signing nonces"),
+			ceremonyJob("c04rev", 2, 2, map[string]string{"listing": "rev"}, "participants listed in descending id order")}
+		nat := []map[string]int{{}, {}, {}}
 		if cr.Tier == "thorough" {
 			cj = append(cj, ceremonyJob("c04n3", 3, 2, all, "outputs, deals, at rest (n=3)"), ceremonyJob("c04n3t3", 3, 3, all, "outputs, deals, at rest (n=3,t=3)"))
 			nat = append(nat, map[string]int{}, nil)
+			cj = append(cj, ceremonyJob("c04rev3", 3, 2, map[string]string{"listing": "rev"}, "participants listed in descending id order (n=3)"))
 		}
 		runCeremony(cr, cj, nat)
 		cr.groupKey = func(v Violation) string { return v.Label }
